@@ -27,8 +27,9 @@ Branches == <<
   [required |-> <<"q">>],                                                                              \* F  required only
   O(<<[k |-> "r", s |-> [type |-> <<"boolean">>]]>>, <<>>),                                           \* G  no validator
   O(<<[k |-> "q", s |-> [type |-> <<"string">>, maxLength |-> 1]]>>, <<>>),                            \* H  q short, optional
-  O(<<[k |-> "q", s |-> [type |-> <<"string">>, minLength |-> 2]]>>, <<"q">>) >>                       \* I  q long: another KEYWORD on B's property
-NB == 9
+  O(<<[k |-> "q", s |-> [type |-> <<"string">>, minLength |-> 2]]>>, <<"q">>),                         \* I  q long: another KEYWORD on B's property
+  O(<<[k |-> "q", s |-> [type |-> <<"string", "null">>]]>>, <<>>) >>                                   \* J  q nullable: another TYPE LIST on B's property
+NB == 10
 Lists == {<<i>> : i \in 1..NB} \cup {<<i, j>> : i \in 1..NB, j \in 1..NB} \cup {<<i, j, k>> : i \in 1..NB, j \in 1..NB, k \in 1..NB}
 Distinct(l) == \A i, j \in DOMAIN l : i # j => l[i] # l[j]
 
@@ -40,7 +41,7 @@ Docs == LET mk(i, j, k) == JObj( (IF i = 1 THEN <<>> ELSE <<KV("p", PV[i])>>) \o
         IN SetToSeq({mk(i, j, k) : i \in DOMAIN PV, j \in DOMAIN QV, k \in DOMAIN RV})
 Wrap(x) == JObj(<<KV("x", x)>>)
 
-DefName(i) == <<"BA", "BB", "BC", "BD", "BE", "BF", "BG", "BH", "BI">>[i]
+DefName(i) == <<"BA", "BB", "BC", "BD", "BE", "BF", "BG", "BH", "BI", "BJ">>[i]
 Unit(c, f, l) ==
   LET byRef(pos) == f = "ref" \/ (f = "firstref" /\ pos = 1)
       br == [pos \in DOMAIN l |-> IF byRef(pos) THEN [ref |-> [k |-> "defs", n |-> DefName(l[pos])]] ELSE Branches[l[pos]]]
@@ -48,7 +49,7 @@ Unit(c, f, l) ==
               IN [n \in DOMAIN idx |-> [k |-> DefName(l[idx[n]]), s |-> Branches[l[idx[n]]]]]
       xs == IF c = "allOf" THEN [allOf |-> br] ELSE [anyOf |-> br]
       \* a $ref branch of anyOf whose target has no validator has no UnmarshalJSON to call: no compile
-      noVal(i) == i = 7
+      noVal(i) == i \in {7, 10}
       \* an inline anyOf branch without `type` becomes interface{}: the validator still names its type
       untyped(i) == i = 6
       nb == (IF c = "anyOf" /\ \E pos \in DOMAIN l : byRef(pos) /\ noVal(l[pos]) THEN <<"AnyOfRefBranchWithoutValidators">> ELSE <<>>)
